@@ -359,6 +359,13 @@ def roundtrip_jobs(ctx):
         ("b_n4_symmetric_small_alphabet", 4, V_SMALL, True, "stream",
          ("rt",), ((),)),
     ]
+    # nearly symmetric matrices: entries that differ by one unit at large
+    # magnitudes (a symmetry test with a tolerance would merge them)
+    for bv in (100_000, 2 ** 31, 10 ** 12 - 1):
+        specs.append((f"b_n2_near_equal_{bv}", 2, (bv - 1, bv, bv + 1),
+                      False, "stream", ("rt",), ((),)))
+        specs.append((f"b_n3_near_equal_{bv}", 3, (bv - 1, bv, bv + 1),
+                      False, "stream", ("rt",), ((),)))
     if not ctx.quick:
         specs.append(("b_n4_symmetric", 4, V_FULL, True, "stream", ("rt",),
                       ((),)))
